@@ -26,12 +26,12 @@ from ..prng import Streams
 from .base import standard_run, Stop
 
 MACHINE = 'adapt'
-CUSTOMS = ['none', 'ret_none', 'ret_val', 'raise', 'super']
-CONFORMS = ['absent', 'none', 'value', 'raises', 'raises_attrerror', 'typeerror', 'attr_attrerror', 'attr_raises', 'unbound']
-HOOKS = ['none', 'value', 'raise', 'pop_last', 'clear', 'append', 'remove_self', 'reenter']
+CUSTOMS = ['none', 'ret_none', 'ret_val', 'ret_falsy', 'raise', 'super']
+CONFORMS = ['absent', 'none', 'value', 'raises', 'falsy', 'raises_attrerror', 'typeerror', 'attr_attrerror', 'attr_raises', 'unbound']
+HOOKS = ['none', 'value', 'falsy', 'raise', 'pop_last', 'clear', 'append', 'remove_self', 'reenter']
 BLOCK = 1600
-ENUM_NOTE = ('complete product {custom __adapt__: 5} x {__conform__: 9} x {provided: 2} x {hook lists of length 0-3 over 8 hook '
-             'behaviours: 585} x {alternate: 2}, plus the sub-interface and registry-hook variants over the smaller hook alphabet; '
+ENUM_NOTE = ('complete product {custom __adapt__: 6} x {__conform__: 10} x {provided: 2} x {hook lists of length 0-3 over 9 hook '
+             'behaviours: 820} x {alternate: 2}, plus the sub-interface and registry-hook variants over the smaller hook alphabet; '
              'everything outside that product is sampled')
 
 
@@ -56,6 +56,8 @@ def extra_cases():
                     for alt in (False, True):
                         yield {'custom': custom, 'conform': conform, 'provided': provided, 'hooks': list(hooks), 'alt': alt,
                                'sub': True, 'reg': None}
+                        yield {'custom': custom, 'conform': conform, 'provided': provided, 'hooks': list(hooks), 'alt': alt,
+                               'sub': False, 'reg': None, 'falsy_obj': True}
                         for regpos in (0, len(hooks)):
                             for regkind in ('hit', 'miss', 'factory_none'):
                                 yield {'custom': custom, 'conform': conform, 'provided': provided, 'hooks': list(hooks), 'alt': alt,
@@ -78,7 +80,8 @@ def generate(seed, mode):
     for _ in range(n):
         nh = o.choice([0, 1, 1, 2, 2, 3, 4])
         c = {'custom': o.choice(CUSTOMS), 'conform': o.choice(CONFORMS), 'provided': o.random() < 0.3,
-             'hooks': [o.choice(HOOKS) for _ in range(nh)], 'alt': o.random() < 0.5, 'sub': o.random() < 0.3, 'reg': None}
+             'hooks': [o.choice(HOOKS) for _ in range(nh)], 'alt': o.random() < 0.5, 'sub': o.random() < 0.3, 'reg': None,
+             'falsy_obj': o.random() < 0.25}
         if o.random() < 0.25:
             c['reg'] = [o.randint(0, nh), o.choice(['hit', 'miss', 'factory_none'])]
         ops.append(c)
@@ -103,6 +106,17 @@ def execute(program, ctx, mode):
     CONF_VAL = object()
     ALT = object()
     REG_VAL = object()
+
+    class Falsy:
+        # adapters that are false in a boolean context are still adapters: only None means "no"
+        def __bool__(self):
+            return False
+
+        def __len__(self):
+            return 0
+    FALSY_HOOK = Falsy()
+    FALSY_CONF = Falsy()
+    FALSY_ADAPT = Falsy()
     hook_vals = {}
     ifaces = {}
 
@@ -121,6 +135,8 @@ def execute(program, ctx, mode):
                         return None
                     if custom == 'ret_val':
                         return ADAPT_VAL
+                    if custom == 'ret_falsy':
+                        return FALSY_ADAPT
                     if custom == 'raise':
                         raise E2('adapt')
                     return super(type(I), self).__adapt__(obj)
@@ -132,8 +148,11 @@ def execute(program, ctx, mode):
         ifaces[custom] = (I, J)
         return ifaces[custom]
 
-    def mk_obj(conform, provided, I):
+    def mk_obj(conform, provided, I, falsy=False):
         ns = {}
+        if falsy:
+            ns['__bool__'] = lambda self: False
+            ns['__len__'] = lambda self: 0
         if conform == 'absent':
             pass
         elif conform == 'attr_attrerror':
@@ -153,6 +172,8 @@ def execute(program, ctx, mode):
                     return None
                 if conform == 'value':
                     return CONF_VAL
+                if conform == 'falsy':
+                    return FALSY_CONF
                 if conform == 'raises':
                     raise E1('conform')
                 if conform == 'raises_attrerror':
@@ -184,6 +205,8 @@ def execute(program, ctx, mode):
             calls.append('hook:%s:%s' % (h.label, tags(iface, ob)))
             if kind == 'value':
                 return hook_vals.setdefault(h.label, object())
+            if kind == 'falsy':
+                return FALSY_HOOK
             if kind == 'raise':
                 raise E2(h.label)
             if kind == 'pop_last':
@@ -223,6 +246,8 @@ def execute(program, ctx, mode):
             log.append('conform')
             if conform == 'value':
                 return ('ret', CONF_VAL), log
+            if conform == 'falsy':
+                return ('ret', FALSY_CONF), log
             if conform == 'raises':
                 return ('raise', 'E1'), log
             if conform == 'raises_attrerror':
@@ -250,6 +275,8 @@ def execute(program, ctx, mode):
                 k = h.kind
                 if k == 'value':
                     return ('ret', hook_vals.setdefault(h.label, object()))
+                if k == 'falsy':
+                    return ('ret', FALSY_HOOK)
                 if k == 'raise':
                     return ('raise', 'E2')
                 if k == 'pop_last':
@@ -283,6 +310,8 @@ def execute(program, ctx, mode):
                 r = None
             elif custom == 'ret_val':
                 r = ('ret', ADAPT_VAL)
+            elif custom == 'ret_falsy':
+                r = ('ret', FALSY_ADAPT)
             elif custom == 'raise':
                 r = ('raise', 'E2')
             else:
@@ -326,7 +355,7 @@ def execute(program, ctx, mode):
             I0, J0 = mk_iface(case['custom'])
             I = J0 if case.get('sub') else I0
             hook_vals.clear()
-            ob = mk_obj(case['conform'], case['provided'], I)
+            ob = mk_obj(case['conform'], case['provided'], I, case.get('falsy_obj', False))
             hooks = [mk_hook(k, i, None) for i, k in enumerate(case['hooks'])]
             if case.get('reg'):
                 pos, kind = case['reg']
@@ -361,7 +390,8 @@ def execute(program, ctx, mode):
                 if x[0] == 'raise':
                     return x
                 v = x[1]
-                for nm, o_ in (('OBJ', ob), ('CONF', CONF_VAL), ('ADAPT', ADAPT_VAL), ('ALT', ALT), ('REG', REG_VAL)):
+                for nm, o_ in (('OBJ', ob), ('CONF', CONF_VAL), ('ADAPT', ADAPT_VAL), ('ALT', ALT), ('REG', REG_VAL),
+                               ('FALSY_HOOK', FALSY_HOOK), ('FALSY_CONF', FALSY_CONF), ('FALSY_ADAPT', FALSY_ADAPT)):
                     if v is o_:
                         return ('ret', nm)
                 for lbl, hv in hook_vals.items():
